@@ -1,3 +1,8 @@
+// under simulation the order in which CLOSE (all) drops the open files must be a
+// function of the handles, not of a randomly seeded hasher
+#[cfg(feature = "verif")]
+use std::collections::BTreeMap as HashMap;
+#[cfg(not(feature = "verif"))]
 use std::collections::HashMap;
 #[cfg(not(feature = "verif"))]
 use std::fs::{File, OpenOptions};
